@@ -253,6 +253,6 @@ CHECKS['C19'] = dict(
     level_note='Trusted base as C01. The read-only tools of ninja.cc (-t commands, inputs, query, targets, rules, graph, compdb, deps, missingdeps) are not driven: only their JSON string encoder and the dry-run path are encoded; directory creation by MakeDirs under -n is not part of the snapshot (the property lists sources, outputs, depfiles and logs).',
     assumptions=_PIPE_ASSUME + ['the -t tools themselves are outside the encoding; only EncodeJSONString is'],
     jobs=_mode_jobs('MODE_DRYRUN', [0, 2, 5], reach=('compared', 'nothing-to-do'), bounds='fully built tree + symbolic edits/deletions, symbolic target subset, -j in {1,2}; dry run then real run') +
-         _mode_jobs('MODE_DRYRUN', [2, 1], extra=['LEFTOVERS'], suffix='_leftovers', reach=('compared',), bounds='the same with a stale depfile / kept response file possibly present') +
+         _mode_jobs('MODE_DRYRUN', [2, 1], extra=['LEFTOVERS'], suffix='_leftovers', reach=('compared', 'dry-run-aborted'), bounds='the same with a stale depfile / kept response file possibly present and directory creation possibly failing') +
          [dict(name='json', harness='c19_json.cc', units=['json'], stubs=False, reach=['escaped', 'verbatim'],
                quick=dict(defines=['VERIF_N=3'], bounds='every NUL-free byte string of length 0..3'), thorough=dict(defines=['VERIF_N=5'], bounds='every NUL-free byte string of length 0..5', limits=dict(time=3000, max_paths=3000000)))])
